@@ -45,6 +45,9 @@ def cases(draw, max_enum):
         cfg.pop("sim_length", None)
     # early stopping is part of the configuration (the resumed run must stop at the same batch as the uninterrupted one)
     cfg["convergence_precision"] = draw(st.sampled_from([None, None, None, 0, 0, 1]))
+    if draw(st.integers(0, 4)) == 0:
+        # a user-defined round-robin scheduler that takes its position from the batch_id reported to update()
+        cfg["scheduler_kind"] = "batch_id_rr"
     big = draw(st.integers(0, 3)) == 0
     n = draw(st.integers(max_enum + 1, 8)) if big else draw(st.integers(2, max_enum))
     cfg["max_batches"] = n
@@ -125,7 +128,7 @@ def check_resume(ctx: Ctx, case):
             one = dict(case, patterns=[pat])
             at_cut = sorted({kinds[(i + 1) % len(kinds)] for i, c in enumerate(pat) if c == 2})
             ctx.count(sub, one, any(k_ in STATEFUL for k_ in at_cut), [f"n={n}", f"restores={sum(c == 2 for c in pat)}",
-                                                                       f"loss={cfg['loss']['kind']}"] +
+                                                                       f"loss={cfg['loss']['kind']}"] + (["scheduler-uses-batch_id"] if cfg.get("scheduler_kind") else []) +
                       [f"restore-before-{k_}" for k_ in at_cut] + (["early-stop-inside"] if k is not None and k < n else []))
             if not any(pat) and p is None:
                 continue
